@@ -727,6 +727,9 @@ struct Dumper
       O["const"] = true;
     if (V->hasInit ())
       O["init"] = expr (V->getInit ());
+    if (auto *VA = dyn_cast<VariableArrayType> (V->getType ().getTypePtr ()))
+      if (VA->getSizeExpr ())
+	O["vla"] = expr (VA->getSizeExpr ());
     return std::move (O);
   }
 
